@@ -96,6 +96,17 @@ func accessorAnswers(f *fit.File) string {
 	return b.String()
 }
 
+// newFileGuarded: NewFile under recover.
+func newFileGuarded(t int) (file *fit.File, err error, panicked bool) {
+	defer func() {
+		if r := recover(); r != nil {
+			panicked = true
+		}
+	}()
+	file, err = fit.NewFile(fit.FileType(t), fit.NewHeader(fit.V20, true))
+	return
+}
+
 func collectFacts() (*facts, error) {
 	f := &facts{ProfileVersion: int(fit.ProfileVersion), Consts: map[string]int{}}
 	f.LenFields, f.LenTypes, f.LenCtors = fit.VerifTableLens()
@@ -149,7 +160,13 @@ func collectFacts() (*facts, error) {
 	// containers and NewFile answers for all 256 file-type values
 	cidx := map[reflect.Type]int{}
 	for t := 0; t < 256; t++ {
-		file, err := fit.NewFile(fit.FileType(t), fit.NewHeader(fit.V20, true))
+		file, err, panicked := newFileGuarded(t)
+		if panicked {
+			// NewFile itself panics for this type: recorded as its own answer (no model answer equals it,
+			// so the profile check and the correspondence both see it)
+			f.FileTypes = append(f.FileTypes, "other")
+			continue
+		}
 		if err != nil {
 			f.FileTypes = append(f.FileTypes, fit.VerifErrClass(err, nil))
 			continue
@@ -189,14 +206,22 @@ func collectFacts() (*facts, error) {
 	for _, m := range fileAccessors() {
 		fa := factsAccessor{Name: m.Name}
 		for t := 0; t < 256; t++ {
-			file, err := fit.NewFile(fit.FileType(t), fit.NewHeader(fit.V20, true))
-			if err != nil {
+			file, err, panicked := newFileGuarded(t)
+			if err != nil || panicked {
 				// accessors only look at FileId.Type: probe with a bare File too
 				file = &fit.File{}
 				file.FileId.Type = fit.FileType(t)
 			}
-			out := m.Func.Call([]reflect.Value{reflect.ValueOf(file)})
-			if out[1].IsNil() {
+			answers := func() (ok bool) {
+				defer func() {
+					if r := recover(); r != nil {
+						ok = false
+					}
+				}()
+				out := m.Func.Call([]reflect.Value{reflect.ValueOf(file)})
+				return out[1].IsNil()
+			}()
+			if answers {
 				fa.Types = append(fa.Types, t)
 			}
 		}
